@@ -74,10 +74,10 @@ func (w *World) sharingScan() {
 			w.probe("shared-backing-unflagged")
 			hit := false
 			if !ra.c.NeedCOW {
-				hit = w.probeWrite(ra.slot, ra.c.Key, rb.slot, "C07")
+				hit = w.probeWrite(ra.slot, ra.c.Key, rb.slot, w.interferenceTag())
 			}
 			if !hit && !rb.c.NeedCOW {
-				hit = w.probeWrite(rb.slot, rb.c.Key, ra.slot, "C07")
+				hit = w.probeWrite(rb.slot, rb.c.Key, ra.slot, w.interferenceTag())
 			}
 			if hit {
 				return // objects were rebuilt; pointers in refs are stale
